@@ -264,6 +264,56 @@ def net_faithful(li: int, rule_present: bool, permit: bool, ipi: int, pti: int, 
     check(obs["LINKS"][idx]["PROTOCOLS"]["ALL"] == want, lambda: f"link band {obs['LINKS'][idx]['PROTOCOLS']['ALL']} differs from documented band {want} for load {real_load}")
 
 
+def off_memory(ns: int, n_in: int, n_out: int, svc: int, fh: int, acc: int, execs: int, kind: str = "routed"):
+    """History independence of the 'not ON' reading: a host is observed while ON with solver-chosen non-default
+    quantities (NMNE counts, service state, file health, access / execution counts), then goes down and is observed
+    again: its part of the observation is exactly what a host that is not ON reads as in a run without that history,
+    and after it is back ON the reading is again that of the state."""
+    from primaite.simulator.file_system.file_system_item_abc import FileSystemItemHealthStatus as FH
+    from primaite.simulator.system.services.service import ServiceOperatingState as SS
+    from harness.c05_requests import NODE_STATES, _set_node_state
+
+    assume(all_of(rng(ns, 1, 3), n_in >= 0, n_out >= 0, rng(svc, 0, len(list(SS)) - 1), rng(fh, 0, len(list(FH)) - 1), acc >= 0, execs >= 0))
+    # coupled choices (every member / every count band of every quantity is still visited, without the full product)
+    assume(all_of(n_out == n_in, execs == acc, any_of(fh == svc, fh == svc - len(list(FH)))))
+    st = pick(NODE_STATES, ns)
+    with concrete():
+        env, cfg = _env(False, kind)
+        sim = env.game.simulation
+        om = env.agent.observation_manager
+        node = sim.network.get_node_by_hostname("client_1")
+        ref_env, _ = _env(False, kind)
+        ref_node = ref_env.game.simulation.network.get_node_by_hostname("client_1")
+    # step 1: ON, with quantities the solver chooses
+    nic = node.network_interface[1]
+    nic.nmne = {"direction": {"inbound": {"keywords": {"*": n_in}}, "outbound": {"keywords": {"*": n_out}}}}
+    node.software_manager.software["dns-client"].operating_state = pick(list(SS), svc)
+    f = node.file_system.get_file(folder_name="docs", file_name="a.txt")
+    f.health_status = pick(list(FH), fh)
+    f.visible_health_status = f.health_status
+    f.num_access = acc
+    node.software_manager.software["web-browser"].num_executions = execs
+    try:
+        o1 = om.update(sim.describe_state())
+        with concrete():
+            o1 = copy.deepcopy(o1)
+            # step 2: the host goes down (real power API); reference: the same host going down with no history
+            _set_node_state(node, st)
+            _set_node_state(ref_node, st)
+        o2 = om.update(sim.describe_state())
+        ref = ref_env.agent.observation_manager.update(ref_env.game.simulation.describe_state())
+    except Exception as e:
+        fail(f"describe_state/update raised {type(e).__name__}: {str(e)[:200]}")
+    cover("went_down")
+    h2, hr = o2["NODES"]["HOST0"], ref["NODES"]["HOST0"]
+    if h2 != hr:
+        with concrete():
+            from harness.c06_blocking import _first_diff
+
+            d = _first_diff(h2, hr, "HOST0")
+        fail(f"a host that is {st} reads differently after having been observed ON with non-default values than without that history: {d} (history vs none)")
+
+
 def folder_memory(dv1: int, dv2: int, scanned1: bool, scanned2: bool):
     """Scan-gated folder health over two consecutive observations: always the last-scanned (visible) value."""
     from primaite.simulator.file_system.file_system_item_abc import FileSystemItemHealthStatus as FH
@@ -308,6 +358,13 @@ HARNESSES = {
         "thorough": [{"fixed": {"router_on": ro, "rule_present": rp, "part": pt}, "timeout": 1200} for ro in (True, False) for rp in (True, False) for pt in ("acl", "link", "nmne")],
         "cover": ["router_on", "router_off"],
         "bounds": "one ACL rule at any of the 4 observed slots with listed/None address, port, protocol and both actions; 9 link loads; NMNE counts unbounded over two steps; router port enabled/disabled; router ON/OFF",
+    },
+    "off_memory": {
+        "fn": off_memory,
+        "quick": [{"fixed": {"ns": n}, "timeout": 200} for n in (1, 2)],
+        "thorough": [{"fixed": {"ns": n, "kind": k}, "timeout": 600} for n in (1, 2, 3) for k in ("routed", "switched")],
+        "cover": ["went_down"],
+        "bounds": "two consecutive observations of one host: ON with unbounded NMNE / access / execution counts, every service state and file health, then SHUTTING_DOWN / OFF / BOOTING; compared with the same host going down without that history",
     },
     "folder_memory": {
         "fn": folder_memory,
